@@ -113,3 +113,267 @@ Print Assumptions C09_real_valuation_bounded.
 Print Assumptions C09_performance_bounded.
 Print Assumptions C09_run_satisfies_class_constraints_smooth_strongly_convex.
 Print Assumptions C09_run_satisfies_class_constraints_convex.
+
+(** * Composition with C03 for the other classes (Proofs/C09ComposeAll.v)
+
+    Same shape as the two theorems above: for every program of any length, every initial valuation, every real
+    member of the class (parameters in the class' range, given to PEPit as rationals), run in the world made of
+    that member: every class constraint / LMI generated from the recorded samples is satisfied at the values
+    of the run.  Worlds: [dfn_world] (differentiable function with a stationary point), [fn_world] (finite convex
+    function, total subgradient selection, minimiser), [pfn_world] (extended-valued: selection on the domain,
+    hypothesis "every recorded evaluation point is in the domain at the values of the run"), [support_world],
+    [graph_world] (single-valued selection T of a graph A that respects veq, with a zero xs), [lin_world] /
+    [lin2_world] (a linear map; with its transpose as function 1 of the run).  ConvexQG / RsiEb: programs that
+    declare a stationary point ([MStat 0] occurs), so PEPit creates none itself.  [set_inf (inf_flag p o)] sets the
+    [np.inf] flag of parameter p when the member's optional parameter is [None].
+    Not composed: SmoothStronglyConvexQuadraticFunction, BlockSmoothConvexFunction. *)
+From PV Require Import Proofs.C04Lemmas Proofs.C09ComposeAll.
+
+(** every recorded stationary sample (empty gradient dictionary) is valued at the world's stationary point *)
+Theorem C09_stationary_samples_at_stationary_point :
+  forall (E : ips) (W : @world E) (ops : list mop) (vs : (nat -> E) * (nat -> R)) (par : nat -> Q) (f : nat) sm,
+    In sm (f_stat (fstate_of par (mrun ops minit) f)) ->
+    In sm (f_points (fstate_of par (mrun ops minit) f)) /\ s_g sm = [] /\
+    veq (px (fst (wrun W ops minit vs)) sm) (fst (stat W f)).
+Proof. intros E W ops vs par f sm. exact (f_stat_at_stat W par ops vs f sm). Qed.
+Print Assumptions C09_stationary_samples_at_stationary_point.
+
+Theorem C09_run_satisfies_class_constraints_smooth_convex :
+  forall (E : ips) (F : @dfn E) (xs : E) (Hxs : veq (dgrad F xs) vzero) (Hext : respects_veq F)
+         (ops : list mop) (vs : (nat -> E) * (nat -> R)),
+    mwf ops minit = true -> Forall op_nodup ops ->
+    forall (L : R) (qL : Q), 0 < L -> smooth_convex_member L F -> Q2R qL = L ->
+    let W := dfn_world F xs Hxs Hext in
+    all_satisfied (fst (wrun W ops minit vs)) (snd (wrun W ops minit vs))
+      (run_plan plan_SmoothConvexFunction (fstate_of (par_at 0 qL) (mrun ops minit) 0)).
+Proof. exact (@run_satisfies_smooth_convex). Qed.
+Print Assumptions C09_run_satisfies_class_constraints_smooth_convex.
+
+Theorem C09_run_satisfies_class_constraints_smooth :
+  forall (E : ips) (F : @dfn E) (xs : E) (Hxs : veq (dgrad F xs) vzero) (Hext : respects_veq F)
+         (ops : list mop) (vs : (nat -> E) * (nat -> R)),
+    mwf ops minit = true -> Forall op_nodup ops ->
+    forall (L : R) (qL : Q), 0 < L -> smooth_member L F -> Q2R qL = L ->
+    let W := dfn_world F xs Hxs Hext in
+    all_satisfied (fst (wrun W ops minit vs)) (snd (wrun W ops minit vs))
+      (run_plan plan_SmoothFunction (fstate_of (par_at 0 qL) (mrun ops minit) 0)).
+Proof. exact (@run_satisfies_smooth). Qed.
+Print Assumptions C09_run_satisfies_class_constraints_smooth.
+
+Theorem C09_run_satisfies_class_constraints_smooth_convex_lipschitz :
+  forall (E : ips) (F : @dfn E) (xs : E) (Hxs : veq (dgrad F xs) vzero) (Hext : respects_veq F)
+         (ops : list mop) (vs : (nat -> E) * (nat -> R)),
+    mwf ops minit = true -> Forall op_nodup ops ->
+    forall (L M : R) (qL qM : Q),
+    0 < L -> 0 <= M -> smooth_convex_lipschitz_member L M F -> Q2R qL = L -> Q2R qM = M ->
+    let W := dfn_world F xs Hxs Hext in
+    all_satisfied (fst (wrun W ops minit vs)) (snd (wrun W ops minit vs))
+      (run_plan plan_SmoothConvexLipschitzFunction (fstate_of (par_at2 0 qL 2 qM) (mrun ops minit) 0)).
+Proof. exact (@run_satisfies_smooth_convex_lipschitz). Qed.
+Print Assumptions C09_run_satisfies_class_constraints_smooth_convex_lipschitz.
+
+(** the world's stationary point is the xs of [rsi_eb_member] *)
+Theorem C09_run_satisfies_class_constraints_rsi_eb :
+  forall (E : ips) (F : @dfn E) (xs : E) (Hxs : veq (dgrad F xs) vzero) (Hext : respects_veq F)
+         (ops : list mop) (vs : (nat -> E) * (nat -> R)),
+    mwf ops minit = true -> Forall op_nodup ops ->
+    forall (mu L : R) (qmu qL : Q),
+    rsi_eb_member mu L F xs -> Q2R qL = L -> Q2R qmu = mu -> In (MStat 0) ops ->
+    let W := dfn_world F xs Hxs Hext in
+    all_satisfied (fst (wrun W ops minit vs)) (snd (wrun W ops minit vs))
+      (run_plan plan_RsiEbFunction (fstate_of (par_at2 0 qL 1 qmu) (mrun ops minit) 0)).
+Proof. exact (@run_satisfies_rsi_eb). Qed.
+Print Assumptions C09_run_satisfies_class_constraints_rsi_eb.
+
+Theorem C09_run_satisfies_class_constraints_convex_lipschitz :
+  forall (E : ips) (F : @fn E) (sel : E -> E) (Hsel : forall x, subgrad F x (sel x))
+         (xs : E) (Hxs : subgrad F xs vzero) (Hext : fn_respects_veq F) (ops : list mop) (vs : (nat -> E) * (nat -> R)),
+    mwf ops minit = true -> Forall op_nodup ops ->
+    forall (M : R) (qM : Q), 0 <= M -> lipschitz_fn M F -> Q2R qM = M ->
+    let W := fn_world F sel Hsel xs Hxs Hext in
+    all_satisfied (fst (wrun W ops minit vs)) (snd (wrun W ops minit vs))
+      (run_plan plan_ConvexLipschitzFunction (fstate_of (par_at 2 qM) (mrun ops minit) 0)).
+Proof. exact (@run_satisfies_convex_lipschitz). Qed.
+Print Assumptions C09_run_satisfies_class_constraints_convex_lipschitz.
+
+(** the world's stationary point is a minimiser *)
+Theorem C09_run_satisfies_class_constraints_convex_qg :
+  forall (E : ips) (F : @fn E) (sel : E -> E) (Hsel : forall x, subgrad F x (sel x))
+         (xs : E) (Hxs : subgrad F xs vzero) (Hext : fn_respects_veq F) (ops : list mop) (vs : (nat -> E) * (nat -> R)),
+    mwf ops minit = true -> Forall op_nodup ops ->
+    forall (L : R) (qL : Q), 0 < L -> qg_member L F -> Q2R qL = L -> In (MStat 0) ops ->
+    let W := fn_world F sel Hsel xs Hxs Hext in
+    all_satisfied (fst (wrun W ops minit vs)) (snd (wrun W ops minit vs))
+      (run_plan plan_ConvexQGFunction (fstate_of (par_at 0 qL) (mrun ops minit) 0)).
+Proof. exact (@run_satisfies_convex_qg). Qed.
+Print Assumptions C09_run_satisfies_class_constraints_convex_qg.
+
+(** extended-valued: the subgradient selection lives on the domain; the run only evaluates points of the domain *)
+Theorem C09_run_satisfies_class_constraints_strongly_convex :
+  forall (E : ips) (F : @fn E) (sel : E -> E) (Hsel : forall x, dom F x -> subgrad F x (sel x))
+         (xs : E) (Hxs : subgrad F xs vzero) (Hext : fn_respects_veq F) (ops : list mop) (vs : (nat -> E) * (nat -> R)),
+    mwf ops minit = true -> Forall op_nodup ops ->
+    forall (mu : R) (qmu : Q), 0 <= mu -> strongly_convex_member mu F -> Q2R qmu = mu ->
+    let W := pfn_world F sel Hsel xs Hxs Hext in
+    (forall sm, In sm (f_points (fstate_of (par_at 1 qmu) (mrun ops minit) 0)) -> dom F (px (fst (wrun W ops minit vs)) sm)) ->
+    all_satisfied (fst (wrun W ops minit vs)) (snd (wrun W ops minit vs))
+      (run_plan plan_StronglyConvexFunction (fstate_of (par_at 1 qmu) (mrun ops minit) 0)).
+Proof. exact (@run_satisfies_strongly_convex). Qed.
+Print Assumptions C09_run_satisfies_class_constraints_strongly_convex.
+
+(** F the indicator of its domain, the oracle a selection of the normal cone on the set *)
+Theorem C09_run_satisfies_class_constraints_convex_indicator :
+  forall (E : ips) (F : @fn E) (sel : E -> E) (Hsel : forall x, dom F x -> subgrad F x (sel x))
+         (xs : E) (Hxs : subgrad F xs vzero) (Hext : fn_respects_veq F) (ops : list mop) (vs : (nat -> E) * (nat -> R)),
+    mwf ops minit = true -> Forall op_nodup ops ->
+    forall (D : option R) (qD : Q), indicator_member D F -> (forall d, D = Some d -> Q2R qD = d) ->
+    let W := pfn_world F sel Hsel xs Hxs Hext in
+    (forall sm, In sm (f_points (fstate_of (par_at 3 qD) (mrun ops minit) 0)) -> dom F (px (fst (wrun W ops minit vs)) sm)) ->
+    all_satisfied (fst (wrun W ops minit vs)) (snd (wrun W ops minit vs))
+      (run_plan plan_ConvexIndicatorFunction (set_inf (inf_flag 3 D) (fstate_of (par_at 3 qD) (mrun ops minit) 0))).
+Proof. exact (@run_satisfies_convex_indicator). Qed.
+Print Assumptions C09_run_satisfies_class_constraints_convex_indicator.
+
+(** sigma the support function of C, the oracle an argmax selection; a minimiser xs exists (0 in C, sigma xs = 0) *)
+Theorem C09_run_satisfies_class_constraints_convex_support :
+  forall (E : ips) (C : E -> Prop) (sigma : E -> R) (sel : E -> E)
+         (Hsel : forall x, C (sel x) /\ inner (sel x) x = sigma x)
+         (xs : E) (Hzero : C vzero) (Hxs : sigma xs = 0)
+         (HCext : forall g g' : E, veq g g' -> C g -> C g') (Hsext : forall x x' : E, veq x x' -> sigma x = sigma x')
+         (M : option R) (qM : Q) (ops : list mop) (vs : (nat -> E) * (nat -> R)),
+    support_member M C sigma -> (forall m, M = Some m -> Q2R qM = m) ->
+    mwf ops minit = true -> Forall op_nodup ops ->
+    let W := support_world C sigma sel Hsel xs Hzero Hxs HCext Hsext in
+    all_satisfied (fst (wrun W ops minit vs)) (snd (wrun W ops minit vs))
+      (run_plan plan_ConvexSupportFunction (set_inf (inf_flag 2 M) (fstate_of (par_at 2 qM) (mrun ops minit) 0))).
+Proof. exact (@run_satisfies_convex_support). Qed.
+Print Assumptions C09_run_satisfies_class_constraints_convex_support.
+
+(** operator classes: T a single-valued selection of the graph A, A xs 0, A respects veq *)
+Theorem C09_run_satisfies_class_constraints_monotone :
+  forall (E : ips) (A : @graph E) (T : E -> E) (HT : forall x, A x (T x)) (xs : E) (Hxs : A xs vzero)
+         (Hext : graph_respects_veq A) (ops : list mop) (vs : (nat -> E) * (nat -> R)),
+    mwf ops minit = true -> Forall op_nodup ops -> monotone_op A ->
+    let W := graph_world A T HT xs Hxs Hext in
+    all_satisfied (fst (wrun W ops minit vs)) (snd (wrun W ops minit vs))
+      (run_plan plan_MonotoneOperator (fstate_of (fun _ => 0%Q) (mrun ops minit) 0)).
+Proof. exact (@run_satisfies_monotone). Qed.
+Print Assumptions C09_run_satisfies_class_constraints_monotone.
+
+Theorem C09_run_satisfies_class_constraints_strongly_monotone :
+  forall (E : ips) (A : @graph E) (T : E -> E) (HT : forall x, A x (T x)) (xs : E) (Hxs : A xs vzero)
+         (Hext : graph_respects_veq A) (ops : list mop) (vs : (nat -> E) * (nat -> R)),
+    mwf ops minit = true -> Forall op_nodup ops ->
+    forall (mu : R) (qmu : Q), strongly_monotone_op mu A -> Q2R qmu = mu ->
+    let W := graph_world A T HT xs Hxs Hext in
+    all_satisfied (fst (wrun W ops minit vs)) (snd (wrun W ops minit vs))
+      (run_plan plan_StronglyMonotoneOperator (fstate_of (par_at 1 qmu) (mrun ops minit) 0)).
+Proof. exact (@run_satisfies_strongly_monotone). Qed.
+Print Assumptions C09_run_satisfies_class_constraints_strongly_monotone.
+
+Theorem C09_run_satisfies_class_constraints_cocoercive :
+  forall (E : ips) (A : @graph E) (T : E -> E) (HT : forall x, A x (T x)) (xs : E) (Hxs : A xs vzero)
+         (Hext : graph_respects_veq A) (ops : list mop) (vs : (nat -> E) * (nat -> R)),
+    mwf ops minit = true -> Forall op_nodup ops ->
+    forall (beta : R) (qbeta : Q), cocoercive_op beta A -> Q2R qbeta = beta ->
+    let W := graph_world A T HT xs Hxs Hext in
+    all_satisfied (fst (wrun W ops minit vs)) (snd (wrun W ops minit vs))
+      (run_plan plan_CocoerciveOperator (fstate_of (par_at 4 qbeta) (mrun ops minit) 0)).
+Proof. exact (@run_satisfies_cocoercive). Qed.
+Print Assumptions C09_run_satisfies_class_constraints_cocoercive.
+
+Theorem C09_run_satisfies_class_constraints_negatively_comonotone :
+  forall (E : ips) (A : @graph E) (T : E -> E) (HT : forall x, A x (T x)) (xs : E) (Hxs : A xs vzero)
+         (Hext : graph_respects_veq A) (ops : list mop) (vs : (nat -> E) * (nat -> R)),
+    mwf ops minit = true -> Forall op_nodup ops ->
+    forall (rh : R) (qrho : Q), neg_comonotone_op rh A -> Q2R qrho = rh ->
+    let W := graph_world A T HT xs Hxs Hext in
+    all_satisfied (fst (wrun W ops minit vs)) (snd (wrun W ops minit vs))
+      (run_plan plan_NegativelyComonotoneOperator (fstate_of (par_at 5 qrho) (mrun ops minit) 0)).
+Proof. exact (@run_satisfies_negatively_comonotone). Qed.
+Print Assumptions C09_run_satisfies_class_constraints_negatively_comonotone.
+
+Theorem C09_run_satisfies_class_constraints_lipschitz :
+  forall (E : ips) (A : @graph E) (T : E -> E) (HT : forall x, A x (T x)) (xs : E) (Hxs : A xs vzero)
+         (Hext : graph_respects_veq A) (ops : list mop) (vs : (nat -> E) * (nat -> R)),
+    mwf ops minit = true -> Forall op_nodup ops ->
+    forall (L : R) (qL : Q), lipschitz_op L A -> Q2R qL = L ->
+    let W := graph_world A T HT xs Hxs Hext in
+    all_satisfied (fst (wrun W ops minit vs)) (snd (wrun W ops minit vs))
+      (run_plan plan_LipschitzOperator (fstate_of (par_at 0 qL) (mrun ops minit) 0)).
+Proof. exact (@run_satisfies_lipschitz). Qed.
+Print Assumptions C09_run_satisfies_class_constraints_lipschitz.
+
+(** no infimal displacement vector declared *)
+Theorem C09_run_satisfies_class_constraints_nonexpansive :
+  forall (E : ips) (A : @graph E) (T : E -> E) (HT : forall x, A x (T x)) (xs : E) (Hxs : A xs vzero)
+         (Hext : graph_respects_veq A) (ops : list mop) (vs : (nat -> E) * (nat -> R)),
+    mwf ops minit = true -> Forall op_nodup ops -> nonexpansive_op A ->
+    let W := graph_world A T HT xs Hxs Hext in
+    all_satisfied (fst (wrun W ops minit vs)) (snd (wrun W ops minit vs))
+      (run_plan plan_NonexpansiveOperator (fstate_of (fun _ => 0%Q) (mrun ops minit) 0)).
+Proof. exact (@run_satisfies_nonexpansive). Qed.
+Print Assumptions C09_run_satisfies_class_constraints_nonexpansive.
+
+Theorem C09_run_satisfies_class_constraints_lipschitz_strongly_monotone :
+  forall (E : ips) (A : @graph E) (T : E -> E) (HT : forall x, A x (T x)) (xs : E) (Hxs : A xs vzero)
+         (Hext : graph_respects_veq A) (ops : list mop) (vs : (nat -> E) * (nat -> R)),
+    mwf ops minit = true -> Forall op_nodup ops ->
+    forall (mu L : R) (qmu qL : Q), lipschitz_strongly_monotone_op mu L A -> Q2R qL = L -> Q2R qmu = mu ->
+    let W := graph_world A T HT xs Hxs Hext in
+    all_satisfied (fst (wrun W ops minit vs)) (snd (wrun W ops minit vs))
+      (run_plan plan_LipschitzStronglyMonotoneOperator (fstate_of (par_at2 0 qL 1 qmu) (mrun ops minit) 0)).
+Proof. exact (@run_satisfies_lipschitz_strongly_monotone). Qed.
+Print Assumptions C09_run_satisfies_class_constraints_lipschitz_strongly_monotone.
+
+Theorem C09_run_satisfies_class_constraints_cocoercive_strongly_monotone :
+  forall (E : ips) (A : @graph E) (T : E -> E) (HT : forall x, A x (T x)) (xs : E) (Hxs : A xs vzero)
+         (Hext : graph_respects_veq A) (ops : list mop) (vs : (nat -> E) * (nat -> R)),
+    mwf ops minit = true -> Forall op_nodup ops ->
+    forall (mu beta : R) (qmu qbeta : Q), cocoercive_strongly_monotone_op mu beta A -> Q2R qmu = mu -> Q2R qbeta = beta ->
+    let W := graph_world A T HT xs Hxs Hext in
+    all_satisfied (fst (wrun W ops minit vs)) (snd (wrun W ops minit vs))
+      (run_plan plan_CocoerciveStronglyMonotoneOperator (fstate_of (par_at2 1 qmu 4 qbeta) (mrun ops minit) 0)).
+Proof. exact (@run_satisfies_cocoercive_strongly_monotone). Qed.
+Print Assumptions C09_run_satisfies_class_constraints_cocoercive_strongly_monotone.
+
+(** linear operators: g = M x, stationary point 0 *)
+Theorem C09_run_satisfies_class_constraints_symmetric_linear :
+  forall (E : ips) (M : E -> E) (HM : linear M) (ops : list mop) (vs : (nat -> E) * (nat -> R)),
+    mwf ops minit = true -> Forall op_nodup ops ->
+    forall (mu L : R) (qmu qL : Q), sa_bounded mu L M -> Q2R qL = L -> Q2R qmu = mu ->
+    let W := lin_world M HM in
+    all_satisfied (fst (wrun W ops minit vs)) (snd (wrun W ops minit vs))
+      (run_plan plan_SymmetricLinearOperator (fstate_of (par_at2 0 qL 1 qmu) (mrun ops minit) 0)).
+Proof. exact (@run_satisfies_symmetric_linear). Qed.
+Print Assumptions C09_run_satisfies_class_constraints_symmetric_linear.
+
+Theorem C09_run_satisfies_class_constraints_skew_symmetric_linear :
+  forall (E : ips) (M : E -> E) (HM : linear M) (ops : list mop) (vs : (nat -> E) * (nat -> R)),
+    mwf ops minit = true -> Forall op_nodup ops ->
+    forall (L : R) (qL : Q), skew_bounded L M -> Q2R qL = L ->
+    let W := lin_world M HM in
+    all_satisfied (fst (wrun W ops minit vs)) (snd (wrun W ops minit vs))
+      (run_plan plan_SkewSymmetricLinearOperator (fstate_of (par_at 0 qL) (mrun ops minit) 0)).
+Proof. exact (@run_satisfies_skew_symmetric_linear). Qed.
+Print Assumptions C09_run_satisfies_class_constraints_skew_symmetric_linear.
+
+(** LinearOperator: the operator is function 0 of the run, its transpose ([self.T]) function 1 *)
+Theorem C09_run_satisfies_class_constraints_linear :
+  forall (E : ips) (M Mt : E -> E) (HM : linear M) (HMt : linear Mt) (L : R) (qL : Q)
+         (ops : list mop) (vs : (nat -> E) * (nat -> R)),
+    bounded_pair L M Mt -> Q2R qL = L ->
+    mwf ops minit = true -> Forall op_nodup ops ->
+    let W := lin2_world M Mt HM HMt in
+    all_satisfied (fst (wrun W ops minit vs)) (snd (wrun W ops minit vs))
+      (run_plan plan_LinearOperator (fstate_of2 (par_at 0 qL) (mrun ops minit) 0 1)).
+Proof. exact (@run_satisfies_linear). Qed.
+Print Assumptions C09_run_satisfies_class_constraints_linear.
+
+(** Non-vacuity of the two-function state: x = Point(); y = A.gradient(x); u = Point(); v = A.T.gradient(u) *)
+Example C09_example_linear_program :
+  let ops := [MFresh; MEval 0 [(0%nat, 1%Q)]; MFresh; MEval 1 [(2%nat, 1%Q)]; MEval 0 [(0%nat, 1%Q); (3%nat, (1 # 2)%Q)]] in
+  mwf ops minit = true /\
+  length (g_cons (run_plan plan_LinearOperator (fstate_of2 (par_at 0 1%Q) (mrun ops minit) 0 1))) = 2%nat /\
+  length (g_lmis (run_plan plan_LinearOperator (fstate_of2 (par_at 0 1%Q) (mrun ops minit) 0 1))) = 2%nat.
+Proof. cbv zeta. split; [|split]; vm_compute; reflexivity. Qed.
